@@ -18,7 +18,10 @@ def pin_pipe_check_known : List Step := [
   ⟨.check, "check_known_store", "check_known_store($0, $1, $2)", "", ["($0.total_difficulty() <= $1.total_difficulty)"]⟩,
   ⟨.okFinal, "", "()", "", []⟩
 ]
-theorem pipe_check_known_pinned : pipe_check_known.parseError = none ∧ pipe_check_known.steps = pin_pipe_check_known := ⟨rfl, rfl⟩
+/-- reviewed `let`s / assignments that feed a guard of `check_known (chain/src/pipe.rs)` -/
+def pin_lets_pipe_check_known : List LetRec := [
+]
+theorem pipe_check_known_pinned : pipe_check_known.parseError = none ∧ pipe_check_known.steps = pin_pipe_check_known ∧ pipe_check_known.lets = pin_lets_pipe_check_known := ⟨rfl, rfl, rfl⟩
 
 /-- reviewed shape of `validate_pow_only (chain/src/pipe.rs)` -/
 def pin_pipe_validate_pow_only : List Step := [
@@ -27,7 +30,10 @@ def pin_pipe_validate_pow_only : List Step := [
   ⟨.fail, "InvalidPow", "Error::InvalidPow", "", ["($1.pow_verifier)($0).is_err()"]⟩,
   ⟨.okFinal, "", "()", "", []⟩
 ]
-theorem pipe_validate_pow_only_pinned : pipe_validate_pow_only.parseError = none ∧ pipe_validate_pow_only.steps = pin_pipe_validate_pow_only := ⟨rfl, rfl⟩
+/-- reviewed `let`s / assignments that feed a guard of `validate_pow_only (chain/src/pipe.rs)` -/
+def pin_lets_pipe_validate_pow_only : List LetRec := [
+]
+theorem pipe_validate_pow_only_pinned : pipe_validate_pow_only.parseError = none ∧ pipe_validate_pow_only.steps = pin_pipe_validate_pow_only ∧ pipe_validate_pow_only.lets = pin_lets_pipe_validate_pow_only := ⟨rfl, rfl, rfl⟩
 
 /-- reviewed shape of `process_block (chain/src/pipe.rs)` -/
 def pin_pipe_process_block : List Step := [
@@ -52,7 +58,12 @@ def pin_pipe_process_block : List Step := [
   ⟨.okFinal, "", "(Some($13), $12)", "", ["has_more_work(&$0.header, &$2)"]⟩,
   ⟨.okFinal, "", "(None, $12)", "", ["!(has_more_work(&$0.header, &$2))"]⟩
 ]
-theorem pipe_process_block_pinned : pipe_process_block.parseError = none ∧ pipe_process_block.steps = pin_pipe_process_block := ⟨rfl, rfl⟩
+/-- reviewed `let`s / assignments that feed a guard of `process_block (chain/src/pipe.rs)` -/
+def pin_lets_pipe_process_block : List LetRec := [
+  ⟨["$2"], "head", "$1.batch.head()?", []⟩,
+  ⟨["$11"], "head", "$9.head()?", ["closure"]⟩
+]
+theorem pipe_process_block_pinned : pipe_process_block.parseError = none ∧ pipe_process_block.steps = pin_pipe_process_block ∧ pipe_process_block.lets = pin_lets_pipe_process_block := ⟨rfl, rfl, rfl⟩
 
 /-- reviewed shape of `process_block_headers (chain/src/pipe.rs)` -/
 def pin_pipe_process_block_headers : List Step := [
@@ -68,7 +79,13 @@ def pin_pipe_process_block_headers : List Step := [
   ⟨.okFinal, "", "None", "", ["closure", "!(($9 || has_more_work($3, &$1)))"]⟩,
   ⟨.tail, "header_extending", "txhashset::header_extending(&$2.header_pmmr, &$2.batch, |..|{..})", "", []⟩
 ]
-theorem pipe_process_block_headers_pinned : pipe_process_block_headers.parseError = none ∧ pipe_process_block_headers.steps = pin_pipe_process_block_headers := ⟨rfl, rfl⟩
+/-- reviewed `let`s / assignments that feed a guard of `process_block_headers (chain/src/pipe.rs)` -/
+def pin_lets_pipe_process_block_headers : List LetRec := [
+  ⟨["$3"], "last", "$0.last().expect(\"…\")", []⟩,
+  ⟨["$4"], "header_head", "$2.batch.header_head()?", []⟩,
+  ⟨["$9"], "is_on_current_chain", "!($7.is_on_current_chain($1, $8)?)", ["closure"]⟩
+]
+theorem pipe_process_block_headers_pinned : pipe_process_block_headers.parseError = none ∧ pipe_process_block_headers.steps = pin_pipe_process_block_headers ∧ pipe_process_block_headers.lets = pin_lets_pipe_process_block_headers := ⟨rfl, rfl, rfl⟩
 
 /-- reviewed shape of `process_block_header (chain/src/pipe.rs)` -/
 def pin_pipe_process_block_header : List Step := [
@@ -88,14 +105,23 @@ def pin_pipe_process_block_header : List Step := [
   ⟨.check, "update_header_head", "update_header_head(&Tip::from_header($0), &$1.batch)", "", ["has_more_work($0, &$4)"]⟩,
   ⟨.okFinal, "", "()", "", []⟩
 ]
-theorem pipe_process_block_header_pinned : pipe_process_block_header.parseError = none ∧ pipe_process_block_header.steps = pin_pipe_process_block_header := ⟨rfl, rfl⟩
+/-- reviewed `let`s / assignments that feed a guard of `process_block_header (chain/src/pipe.rs)` -/
+def pin_lets_pipe_process_block_header : List LetRec := [
+  ⟨["$2"], "head", "$1.batch.head()?", []⟩,
+  ⟨["$4"], "header_head", "$1.batch.header_head()?", []⟩
+]
+theorem pipe_process_block_header_pinned : pipe_process_block_header.parseError = none ∧ pipe_process_block_header.steps = pin_pipe_process_block_header ∧ pipe_process_block_header.lets = pin_lets_pipe_process_block_header := ⟨rfl, rfl, rfl⟩
 
 /-- reviewed shape of `check_known_head (chain/src/pipe.rs)` -/
 def pin_pipe_check_known_head : List Step := [
   ⟨.fail, "Unfit", "Error::Unfit(\"…\".to_string())", "", ["(($2 == $1.last_block_h) || ($2 == $1.prev_block_h))"]⟩,
   ⟨.okFinal, "", "()", "", []⟩
 ]
-theorem pipe_check_known_head_pinned : pipe_check_known_head.parseError = none ∧ pipe_check_known_head.steps = pin_pipe_check_known_head := ⟨rfl, rfl⟩
+/-- reviewed `let`s / assignments that feed a guard of `check_known_head (chain/src/pipe.rs)` -/
+def pin_lets_pipe_check_known_head : List LetRec := [
+  ⟨["$2"], "hash", "$0.hash()", []⟩
+]
+theorem pipe_check_known_head_pinned : pipe_check_known_head.parseError = none ∧ pipe_check_known_head.steps = pin_pipe_check_known_head ∧ pipe_check_known_head.lets = pin_lets_pipe_check_known_head := ⟨rfl, rfl, rfl⟩
 
 /-- reviewed shape of `check_known_store (chain/src/pipe.rs)` -/
 def pin_pipe_check_known_store : List Step := [
@@ -104,20 +130,29 @@ def pin_pipe_check_known_store : List Step := [
   ⟨.okFinal, "", "()", "", ["$2.batch.block_exists(&$0.hash()) ~ Ok(_)"]⟩,
   ⟨.fail, "StoreErr", "Error::StoreErr($5, \"…\".to_owned())", "", ["$2.batch.block_exists(&$0.hash()) ~ Err(_)"]⟩
 ]
-theorem pipe_check_known_store_pinned : pipe_check_known_store.parseError = none ∧ pipe_check_known_store.steps = pin_pipe_check_known_store := ⟨rfl, rfl⟩
+/-- reviewed `let`s / assignments that feed a guard of `check_known_store (chain/src/pipe.rs)` -/
+def pin_lets_pipe_check_known_store : List LetRec := [
+]
+theorem pipe_check_known_store_pinned : pipe_check_known_store.parseError = none ∧ pipe_check_known_store.steps = pin_pipe_check_known_store ∧ pipe_check_known_store.lets = pin_lets_pipe_check_known_store := ⟨rfl, rfl, rfl⟩
 
 /-- reviewed shape of `prev_header_store (chain/src/pipe.rs)` -/
 def pin_pipe_prev_header_store : List Step := [
   ⟨.check, "get_previous_header", "$1.get_previous_header(&$0)", "", []⟩,
   ⟨.okFinal, "", "$2", "", []⟩
 ]
-theorem pipe_prev_header_store_pinned : pipe_prev_header_store.parseError = none ∧ pipe_prev_header_store.steps = pin_pipe_prev_header_store := ⟨rfl, rfl⟩
+/-- reviewed `let`s / assignments that feed a guard of `prev_header_store (chain/src/pipe.rs)` -/
+def pin_lets_pipe_prev_header_store : List LetRec := [
+]
+theorem pipe_prev_header_store_pinned : pipe_prev_header_store.parseError = none ∧ pipe_prev_header_store.steps = pin_pipe_prev_header_store ∧ pipe_prev_header_store.lets = pin_lets_pipe_prev_header_store := ⟨rfl, rfl, rfl⟩
 
 /-- reviewed shape of `validate_header_ctx (chain/src/pipe.rs)` -/
 def pin_pipe_validate_header_ctx : List Step := [
   ⟨.tail, "header_allowed", "($1.header_allowed)($0)", "", []⟩
 ]
-theorem pipe_validate_header_ctx_pinned : pipe_validate_header_ctx.parseError = none ∧ pipe_validate_header_ctx.steps = pin_pipe_validate_header_ctx := ⟨rfl, rfl⟩
+/-- reviewed `let`s / assignments that feed a guard of `validate_header_ctx (chain/src/pipe.rs)` -/
+def pin_lets_pipe_validate_header_ctx : List LetRec := [
+]
+theorem pipe_validate_header_ctx_pinned : pipe_validate_header_ctx.parseError = none ∧ pipe_validate_header_ctx.steps = pin_pipe_validate_header_ctx ∧ pipe_validate_header_ctx.lets = pin_lets_pipe_validate_header_ctx := ⟨rfl, rfl, rfl⟩
 
 /-- reviewed shape of `validate_header_denylist (chain/src/pipe.rs)` -/
 def pin_pipe_validate_header_denylist : List Step := [
@@ -125,7 +160,10 @@ def pin_pipe_validate_header_denylist : List Step := [
   ⟨.fail, "Block.Other", "Error::Block(block::Error::Other(\"…\".into()))", "", ["$1.contains(&$0.hash())"]⟩,
   ⟨.okEarly, "", "()", "", ["!($1.contains(&$0.hash()))"]⟩
 ]
-theorem pipe_validate_header_denylist_pinned : pipe_validate_header_denylist.parseError = none ∧ pipe_validate_header_denylist.steps = pin_pipe_validate_header_denylist := ⟨rfl, rfl⟩
+/-- reviewed `let`s / assignments that feed a guard of `validate_header_denylist (chain/src/pipe.rs)` -/
+def pin_lets_pipe_validate_header_denylist : List LetRec := [
+]
+theorem pipe_validate_header_denylist_pinned : pipe_validate_header_denylist.parseError = none ∧ pipe_validate_header_denylist.steps = pin_pipe_validate_header_denylist ∧ pipe_validate_header_denylist.lets = pin_lets_pipe_validate_header_denylist := ⟨rfl, rfl, rfl⟩
 
 /-- reviewed shape of `validate_header (chain/src/pipe.rs)` -/
 def pin_pipe_validate_header : List Step := [
@@ -144,7 +182,18 @@ def pin_pipe_validate_header : List Step := [
   ⟨.fail, "InvalidScaling", "Error::InvalidScaling", "", ["!($1.opts.contains(Options::SKIP_POW))", "(($0.version < HeaderVersion(5)) && ($0.pow.secondary_scaling != $9.secondary_scaling))"]⟩,
   ⟨.okFinal, "", "()", "", []⟩
 ]
-theorem pipe_validate_header_pinned : pipe_validate_header.parseError = none ∧ pipe_validate_header.steps = pin_pipe_validate_header := ⟨rfl, rfl⟩
+/-- reviewed `let`s / assignments that feed a guard of `validate_header (chain/src/pipe.rs)` -/
+def pin_lets_pipe_validate_header : List LetRec := [
+  ⟨["$2"], "prev_header_store", "prev_header_store($0, &$1.batch)?", []⟩,
+  ⟨["$3"], "saturating_sub", "$0.output_mmr_count().saturating_sub($2.output_mmr_count())", []⟩,
+  ⟨["$4"], "saturating_sub", "$0.kernel_mmr_count().saturating_sub($2.kernel_mmr_count())", []⟩,
+  ⟨["$5"], "weight_by_iok", "TransactionBody::weight_by_iok(0, $3, $4)", []⟩,
+  ⟨["$6"], "<bin>", "($0.total_difficulty() - $2.total_difficulty())", ["!($1.opts.contains(Options::SKIP_POW))"]⟩,
+  ⟨["$7"], "child", "$1.batch.child()?", ["!($1.opts.contains(Options::SKIP_POW))"]⟩,
+  ⟨["$8"], "from_batch", "store::DifficultyIter::from_batch($2.hash(), $7)", ["!($1.opts.contains(Options::SKIP_POW))"]⟩,
+  ⟨["$9"], "next_difficulty", "consensus::next_difficulty($0.height, $8)", ["!($1.opts.contains(Options::SKIP_POW))"]⟩
+]
+theorem pipe_validate_header_pinned : pipe_validate_header.parseError = none ∧ pipe_validate_header.steps = pin_pipe_validate_header ∧ pipe_validate_header.lets = pin_lets_pipe_validate_header := ⟨rfl, rfl, rfl⟩
 
 /-- reviewed shape of `validate_block (chain/src/pipe.rs)` -/
 def pin_pipe_validate_block : List Step := [
@@ -152,13 +201,19 @@ def pin_pipe_validate_block : List Step := [
   ⟨.check, "validate", "$0.validate(&$2.total_kernel_offset)", "", []⟩,
   ⟨.okFinal, "", "()", "", []⟩
 ]
-theorem pipe_validate_block_pinned : pipe_validate_block.parseError = none ∧ pipe_validate_block.steps = pin_pipe_validate_block := ⟨rfl, rfl⟩
+/-- reviewed `let`s / assignments that feed a guard of `validate_block (chain/src/pipe.rs)` -/
+def pin_lets_pipe_validate_block : List LetRec := [
+]
+theorem pipe_validate_block_pinned : pipe_validate_block.parseError = none ∧ pipe_validate_block.steps = pin_pipe_validate_block ∧ pipe_validate_block.lets = pin_lets_pipe_validate_block := ⟨rfl, rfl, rfl⟩
 
 /-- reviewed shape of `verify_coinbase_maturity (chain/src/pipe.rs)` -/
 def pin_pipe_verify_coinbase_maturity : List Step := [
   ⟨.tail, "verify_coinbase_maturity", "$3.utxo_view($4).verify_coinbase_maturity(&$0.inputs(), $0.header.height, $2)", "", []⟩
 ]
-theorem pipe_verify_coinbase_maturity_pinned : pipe_verify_coinbase_maturity.parseError = none ∧ pipe_verify_coinbase_maturity.steps = pin_pipe_verify_coinbase_maturity := ⟨rfl, rfl⟩
+/-- reviewed `let`s / assignments that feed a guard of `verify_coinbase_maturity (chain/src/pipe.rs)` -/
+def pin_lets_pipe_verify_coinbase_maturity : List LetRec := [
+]
+theorem pipe_verify_coinbase_maturity_pinned : pipe_verify_coinbase_maturity.parseError = none ∧ pipe_verify_coinbase_maturity.steps = pin_pipe_verify_coinbase_maturity ∧ pipe_verify_coinbase_maturity.lets = pin_lets_pipe_verify_coinbase_maturity := ⟨rfl, rfl, rfl⟩
 
 /-- reviewed shape of `verify_block_sums (chain/src/pipe.rs)` -/
 def pin_pipe_verify_block_sums : List Step := [
@@ -167,7 +222,10 @@ def pin_pipe_verify_block_sums : List Step := [
   ⟨.check, "save_block_sums", "$1.save_block_sums(&$0.hash(), BlockSums{utxo_sum: $5, kernel_sum: $6})", "", []⟩,
   ⟨.okFinal, "", "()", "", []⟩
 ]
-theorem pipe_verify_block_sums_pinned : pipe_verify_block_sums.parseError = none ∧ pipe_verify_block_sums.steps = pin_pipe_verify_block_sums := ⟨rfl, rfl⟩
+/-- reviewed `let`s / assignments that feed a guard of `verify_block_sums (chain/src/pipe.rs)` -/
+def pin_lets_pipe_verify_block_sums : List LetRec := [
+]
+theorem pipe_verify_block_sums_pinned : pipe_verify_block_sums.parseError = none ∧ pipe_verify_block_sums.steps = pin_pipe_verify_block_sums ∧ pipe_verify_block_sums.lets = pin_lets_pipe_verify_block_sums := ⟨rfl, rfl, rfl⟩
 
 /-- reviewed shape of `apply_block_to_txhashset (chain/src/pipe.rs)` -/
 def pin_pipe_apply_block_to_txhashset : List Step := [
@@ -176,14 +234,20 @@ def pin_pipe_apply_block_to_txhashset : List Step := [
   ⟨.check, "validate_sizes", "$1.extension.validate_sizes(&$0.header)", "", []⟩,
   ⟨.okFinal, "", "()", "", []⟩
 ]
-theorem pipe_apply_block_to_txhashset_pinned : pipe_apply_block_to_txhashset.parseError = none ∧ pipe_apply_block_to_txhashset.steps = pin_pipe_apply_block_to_txhashset := ⟨rfl, rfl⟩
+/-- reviewed `let`s / assignments that feed a guard of `apply_block_to_txhashset (chain/src/pipe.rs)` -/
+def pin_lets_pipe_apply_block_to_txhashset : List LetRec := [
+]
+theorem pipe_apply_block_to_txhashset_pinned : pipe_apply_block_to_txhashset.parseError = none ∧ pipe_apply_block_to_txhashset.steps = pin_pipe_apply_block_to_txhashset ∧ pipe_apply_block_to_txhashset.lets = pin_lets_pipe_apply_block_to_txhashset := ⟨rfl, rfl, rfl⟩
 
 /-- reviewed shape of `add_block (chain/src/pipe.rs)` -/
 def pin_pipe_add_block : List Step := [
   ⟨.check, "save_block", "$1.save_block($0)", "", []⟩,
   ⟨.okFinal, "", "()", "", []⟩
 ]
-theorem pipe_add_block_pinned : pipe_add_block.parseError = none ∧ pipe_add_block.steps = pin_pipe_add_block := ⟨rfl, rfl⟩
+/-- reviewed `let`s / assignments that feed a guard of `add_block (chain/src/pipe.rs)` -/
+def pin_lets_pipe_add_block : List LetRec := [
+]
+theorem pipe_add_block_pinned : pipe_add_block.parseError = none ∧ pipe_add_block.steps = pin_pipe_add_block ∧ pipe_add_block.lets = pin_lets_pipe_add_block := ⟨rfl, rfl, rfl⟩
 
 /-- reviewed shape of `update_body_tail (chain/src/pipe.rs)` -/
 def pin_pipe_update_body_tail : List Step := [
@@ -191,7 +255,10 @@ def pin_pipe_update_body_tail : List Step := [
   ⟨.check, "save_body_tail", "$1.save_body_tail(&$2).map_err(|..|{..})", "StoreErr", []⟩,
   ⟨.okFinal, "", "()", "", []⟩
 ]
-theorem pipe_update_body_tail_pinned : pipe_update_body_tail.parseError = none ∧ pipe_update_body_tail.steps = pin_pipe_update_body_tail := ⟨rfl, rfl⟩
+/-- reviewed `let`s / assignments that feed a guard of `update_body_tail (chain/src/pipe.rs)` -/
+def pin_lets_pipe_update_body_tail : List LetRec := [
+]
+theorem pipe_update_body_tail_pinned : pipe_update_body_tail.parseError = none ∧ pipe_update_body_tail.steps = pin_pipe_update_body_tail ∧ pipe_update_body_tail.lets = pin_lets_pipe_update_body_tail := ⟨rfl, rfl, rfl⟩
 
 /-- reviewed shape of `add_block_header (chain/src/pipe.rs)` -/
 def pin_pipe_add_block_header : List Step := [
@@ -199,7 +266,10 @@ def pin_pipe_add_block_header : List Step := [
   ⟨.check, "save_block_header", "$1.save_block_header($0).map_err(|..|{..})", "StoreErr", []⟩,
   ⟨.okFinal, "", "()", "", []⟩
 ]
-theorem pipe_add_block_header_pinned : pipe_add_block_header.parseError = none ∧ pipe_add_block_header.steps = pin_pipe_add_block_header := ⟨rfl, rfl⟩
+/-- reviewed `let`s / assignments that feed a guard of `add_block_header (chain/src/pipe.rs)` -/
+def pin_lets_pipe_add_block_header : List LetRec := [
+]
+theorem pipe_add_block_header_pinned : pipe_add_block_header.parseError = none ∧ pipe_add_block_header.steps = pin_pipe_add_block_header ∧ pipe_add_block_header.lets = pin_lets_pipe_add_block_header := ⟨rfl, rfl, rfl⟩
 
 /-- reviewed shape of `update_header_head (chain/src/pipe.rs)` -/
 def pin_pipe_update_header_head : List Step := [
@@ -207,7 +277,10 @@ def pin_pipe_update_header_head : List Step := [
   ⟨.check, "save_header_head", "$1.save_header_head(&$0).map_err(|..|{..})", "StoreErr", []⟩,
   ⟨.okFinal, "", "()", "", []⟩
 ]
-theorem pipe_update_header_head_pinned : pipe_update_header_head.parseError = none ∧ pipe_update_header_head.steps = pin_pipe_update_header_head := ⟨rfl, rfl⟩
+/-- reviewed `let`s / assignments that feed a guard of `update_header_head (chain/src/pipe.rs)` -/
+def pin_lets_pipe_update_header_head : List LetRec := [
+]
+theorem pipe_update_header_head_pinned : pipe_update_header_head.parseError = none ∧ pipe_update_header_head.steps = pin_pipe_update_header_head ∧ pipe_update_header_head.lets = pin_lets_pipe_update_header_head := ⟨rfl, rfl, rfl⟩
 
 /-- reviewed shape of `update_head (chain/src/pipe.rs)` -/
 def pin_pipe_update_head : List Step := [
@@ -215,13 +288,19 @@ def pin_pipe_update_head : List Step := [
   ⟨.check, "save_body_head", "$1.save_body_head(&$0).map_err(|..|{..})", "StoreErr", []⟩,
   ⟨.okFinal, "", "()", "", []⟩
 ]
-theorem pipe_update_head_pinned : pipe_update_head.parseError = none ∧ pipe_update_head.steps = pin_pipe_update_head := ⟨rfl, rfl⟩
+/-- reviewed `let`s / assignments that feed a guard of `update_head (chain/src/pipe.rs)` -/
+def pin_lets_pipe_update_head : List LetRec := [
+]
+theorem pipe_update_head_pinned : pipe_update_head.parseError = none ∧ pipe_update_head.steps = pin_pipe_update_head ∧ pipe_update_head.lets = pin_lets_pipe_update_head := ⟨rfl, rfl, rfl⟩
 
 /-- reviewed shape of `has_more_work (chain/src/pipe.rs)` -/
 def pin_pipe_has_more_work : List Step := [
   ⟨.tail, "<bin>", "($0.total_difficulty() > $1.total_difficulty)", "", []⟩
 ]
-theorem pipe_has_more_work_pinned : pipe_has_more_work.parseError = none ∧ pipe_has_more_work.steps = pin_pipe_has_more_work := ⟨rfl, rfl⟩
+/-- reviewed `let`s / assignments that feed a guard of `has_more_work (chain/src/pipe.rs)` -/
+def pin_lets_pipe_has_more_work : List LetRec := [
+]
+theorem pipe_has_more_work_pinned : pipe_has_more_work.parseError = none ∧ pipe_has_more_work.steps = pin_pipe_has_more_work ∧ pipe_has_more_work.lets = pin_lets_pipe_has_more_work := ⟨rfl, rfl, rfl⟩
 
 /-- reviewed shape of `rewind_and_apply_header_fork (chain/src/pipe.rs)` -/
 def pin_pipe_rewind_and_apply_header_fork : List Step := [
@@ -237,7 +316,13 @@ def pin_pipe_rewind_and_apply_header_fork : List Step := [
   ⟨.check, "apply_header", "$1.apply_header(&$9)", "", ["for $4"]⟩,
   ⟨.okFinal, "", "()", "", []⟩
 ]
-theorem pipe_rewind_and_apply_header_fork_pinned : pipe_rewind_and_apply_header_fork.parseError = none ∧ pipe_rewind_and_apply_header_fork.steps = pin_pipe_rewind_and_apply_header_fork := ⟨rfl, rfl⟩
+/-- reviewed `let`s / assignments that feed a guard of `rewind_and_apply_header_fork (chain/src/pipe.rs)` -/
+def pin_lets_pipe_rewind_and_apply_header_fork : List LetRec := [
+  ⟨["$4"], "<vec>", "[]", []⟩,
+  ⟨["$5"], "header", "$0.clone()", []⟩,
+  ⟨["$5"], "get_previous_header", "= $2.get_previous_header(&$5)?", ["while (($5.height > 0) && !($1.is_on_current_chain(&$5, $2)?))"]⟩
+]
+theorem pipe_rewind_and_apply_header_fork_pinned : pipe_rewind_and_apply_header_fork.parseError = none ∧ pipe_rewind_and_apply_header_fork.steps = pin_pipe_rewind_and_apply_header_fork ∧ pipe_rewind_and_apply_header_fork.lets = pin_lets_pipe_rewind_and_apply_header_fork := ⟨rfl, rfl, rfl⟩
 
 /-- reviewed shape of `rewind_and_apply_fork (chain/src/pipe.rs)` -/
 def pin_pipe_rewind_and_apply_fork : List Step := [
@@ -257,27 +342,46 @@ def pin_pipe_rewind_and_apply_fork : List Step := [
   ⟨.check, "apply_block_to_txhashset", "apply_block_to_txhashset(&$12, $1, $2)", "", ["for $8"]⟩,
   ⟨.okFinal, "", "$7", "", []⟩
 ]
-theorem pipe_rewind_and_apply_fork_pinned : pipe_rewind_and_apply_fork.parseError = none ∧ pipe_rewind_and_apply_fork.steps = pin_pipe_rewind_and_apply_fork := ⟨rfl, rfl⟩
+/-- reviewed `let`s / assignments that feed a guard of `rewind_and_apply_fork (chain/src/pipe.rs)` -/
+def pin_lets_pipe_rewind_and_apply_fork : List LetRec := [
+  ⟨["$5"], "header_extension", "&$1.header_extension", []⟩,
+  ⟨["$6"], "head_header", "$2.head_header()?", []⟩,
+  ⟨["$6"], "get_previous_header", "= $2.get_previous_header(&$6)?", ["while (($6.height > 0) && !($5.is_on_current_chain(&$6, $2)?))"]⟩,
+  ⟨["$7"], "current", "$6", []⟩,
+  ⟨["$8"], "<vec>", "[]", []⟩,
+  ⟨["$9"], "header", "$0.clone()", []⟩,
+  ⟨["$9"], "get_previous_header", "= $2.get_previous_header(&$9)?", ["while ($9.height > $7.height)"]⟩
+]
+theorem pipe_rewind_and_apply_fork_pinned : pipe_rewind_and_apply_fork.parseError = none ∧ pipe_rewind_and_apply_fork.steps = pin_pipe_rewind_and_apply_fork ∧ pipe_rewind_and_apply_fork.lets = pin_lets_pipe_rewind_and_apply_fork := ⟨rfl, rfl, rfl⟩
 
 /-- reviewed shape of `validate_utxo (chain/src/pipe.rs)` -/
 def pin_pipe_validate_utxo : List Step := [
   ⟨.tail, "validate_block", "$3.utxo_view($4).validate_block($0, $2)", "", []⟩
 ]
-theorem pipe_validate_utxo_pinned : pipe_validate_utxo.parseError = none ∧ pipe_validate_utxo.steps = pin_pipe_validate_utxo := ⟨rfl, rfl⟩
+/-- reviewed `let`s / assignments that feed a guard of `validate_utxo (chain/src/pipe.rs)` -/
+def pin_lets_pipe_validate_utxo : List LetRec := [
+]
+theorem pipe_validate_utxo_pinned : pipe_validate_utxo.parseError = none ∧ pipe_validate_utxo.steps = pin_pipe_validate_utxo ∧ pipe_validate_utxo.lets = pin_lets_pipe_validate_utxo := ⟨rfl, rfl, rfl⟩
 
 /-- reviewed shape of `UTXOView::validate_block (chain/src/txhashset/utxo_view.rs)` -/
 def pin_utxo_validate_block : List Step := [
   ⟨.check, "validate_output", "self.validate_output($2, $1)", "", ["for $0.outputs()"]⟩,
   ⟨.tail, "validate_inputs", "self.validate_inputs(&$0.inputs(), $1)", "", []⟩
 ]
-theorem utxo_validate_block_pinned : utxo_validate_block.parseError = none ∧ utxo_validate_block.steps = pin_utxo_validate_block := ⟨rfl, rfl⟩
+/-- reviewed `let`s / assignments that feed a guard of `UTXOView::validate_block (chain/src/txhashset/utxo_view.rs)` -/
+def pin_lets_utxo_validate_block : List LetRec := [
+]
+theorem utxo_validate_block_pinned : utxo_validate_block.parseError = none ∧ utxo_validate_block.steps = pin_utxo_validate_block ∧ utxo_validate_block.lets = pin_lets_utxo_validate_block := ⟨rfl, rfl, rfl⟩
 
 /-- reviewed shape of `UTXOView::validate_tx (chain/src/txhashset/utxo_view.rs)` -/
 def pin_utxo_validate_tx : List Step := [
   ⟨.check, "validate_output", "self.validate_output($2, $1)", "", ["for $0.outputs()"]⟩,
   ⟨.tail, "validate_inputs", "self.validate_inputs(&$0.inputs(), $1)", "", []⟩
 ]
-theorem utxo_validate_tx_pinned : utxo_validate_tx.parseError = none ∧ utxo_validate_tx.steps = pin_utxo_validate_tx := ⟨rfl, rfl⟩
+/-- reviewed `let`s / assignments that feed a guard of `UTXOView::validate_tx (chain/src/txhashset/utxo_view.rs)` -/
+def pin_lets_utxo_validate_tx : List LetRec := [
+]
+theorem utxo_validate_tx_pinned : utxo_validate_tx.parseError = none ∧ utxo_validate_tx.steps = pin_utxo_validate_tx ∧ utxo_validate_tx.lets = pin_lets_utxo_validate_tx := ⟨rfl, rfl, rfl⟩
 
 /-- reviewed shape of `UTXOView::validate_input (chain/src/txhashset/utxo_view.rs)` -/
 def pin_utxo_validate_input : List Step := [
@@ -286,7 +390,11 @@ def pin_utxo_validate_input : List Step := [
   ⟨.fail, "Other", "Error::Other(\"…\".into())", "", ["$2 ~ Some(_)", "self.output_pmmr.get_data(($3.pos - 1)) ~ Some(_)", "!(($4.commitment() == $0))"]⟩,
   ⟨.fail, "AlreadySpent", "Error::AlreadySpent($0)", "", []⟩
 ]
-theorem utxo_validate_input_pinned : utxo_validate_input.parseError = none ∧ utxo_validate_input.steps = pin_utxo_validate_input := ⟨rfl, rfl⟩
+/-- reviewed `let`s / assignments that feed a guard of `UTXOView::validate_input (chain/src/txhashset/utxo_view.rs)` -/
+def pin_lets_utxo_validate_input : List LetRec := [
+  ⟨["$2"], "get_output_pos_height", "$1.get_output_pos_height(&$0)?", []⟩
+]
+theorem utxo_validate_input_pinned : utxo_validate_input.parseError = none ∧ utxo_validate_input.steps = pin_utxo_validate_input ∧ utxo_validate_input.lets = pin_lets_utxo_validate_input := ⟨rfl, rfl, rfl⟩
 
 /-- reviewed shape of `UTXOView::validate_inputs (chain/src/txhashset/utxo_view.rs)` -/
 def pin_utxo_validate_inputs : List Step := [
@@ -298,14 +406,20 @@ def pin_utxo_validate_inputs : List Step := [
   ⟨.tail, "validate_input", "self.validate_input($8.commitment(), $1).and_then(|..|{..})", "", ["$0 ~ Inputs::FeaturesAndCommit(_)", "closure"]⟩,
   ⟨.tail, "outputs_spent", "$11", "", ["$0 ~ Inputs::FeaturesAndCommit(_)"]⟩
 ]
-theorem utxo_validate_inputs_pinned : utxo_validate_inputs.parseError = none ∧ utxo_validate_inputs.steps = pin_utxo_validate_inputs := ⟨rfl, rfl⟩
+/-- reviewed `let`s / assignments that feed a guard of `UTXOView::validate_inputs (chain/src/txhashset/utxo_view.rs)` -/
+def pin_lets_utxo_validate_inputs : List LetRec := [
+]
+theorem utxo_validate_inputs_pinned : utxo_validate_inputs.parseError = none ∧ utxo_validate_inputs.steps = pin_utxo_validate_inputs ∧ utxo_validate_inputs.lets = pin_lets_utxo_validate_inputs := ⟨rfl, rfl, rfl⟩
 
 /-- reviewed shape of `UTXOView::validate_output (chain/src/txhashset/utxo_view.rs)` -/
 def pin_utxo_validate_output : List Step := [
   ⟨.fail, "DuplicateCommitment", "Error::DuplicateCommitment($0.commitment())", "", ["$1.get_output_pos(&$0.commitment()) ~ Ok(_)", "self.output_pmmr.get_data($2) ~ Some(_)", "($3.commitment() == $0.commitment())"]⟩,
   ⟨.okFinal, "", "()", "", []⟩
 ]
-theorem utxo_validate_output_pinned : utxo_validate_output.parseError = none ∧ utxo_validate_output.steps = pin_utxo_validate_output := ⟨rfl, rfl⟩
+/-- reviewed `let`s / assignments that feed a guard of `UTXOView::validate_output (chain/src/txhashset/utxo_view.rs)` -/
+def pin_lets_utxo_validate_output : List LetRec := [
+]
+theorem utxo_validate_output_pinned : utxo_validate_output.parseError = none ∧ utxo_validate_output.steps = pin_utxo_validate_output ∧ utxo_validate_output.lets = pin_lets_utxo_validate_output := ⟨rfl, rfl, rfl⟩
 
 /-- reviewed shape of `UTXOView::verify_coinbase_maturity (chain/src/txhashset/utxo_view.rs)` -/
 def pin_utxo_verify_coinbase_maturity : List Step := [
@@ -318,7 +432,16 @@ def pin_utxo_verify_coinbase_maturity : List Step := [
   ⟨.fail, "ImmatureCoinbase", "Error::ImmatureCoinbase", "", ["$8 ~ Some(_)", "($9 > $12)"]⟩,
   ⟨.okFinal, "", "()", "", []⟩
 ]
-theorem utxo_verify_coinbase_maturity_pinned : utxo_verify_coinbase_maturity.parseError = none ∧ utxo_verify_coinbase_maturity.steps = pin_utxo_verify_coinbase_maturity := ⟨rfl, rfl⟩
+/-- reviewed `let`s / assignments that feed a guard of `UTXOView::verify_coinbase_maturity (chain/src/txhashset/utxo_view.rs)` -/
+def pin_lets_utxo_verify_coinbase_maturity : List LetRec := [
+  ⟨["$3"], "inputs", "$0.into()", []⟩,
+  ⟨["$5"], "inputs", "$3.iter().map(|..|{..}).collect()", []⟩,
+  ⟨["$8"], "max", "$5?.iter().filter_map(|..|{..}).max()", []⟩,
+  ⟨["$10"], "saturating_sub", "$1.saturating_sub(global::coinbase_maturity())", ["$8 ~ Some(_)"]⟩,
+  ⟨["$11"], "get_header_by_height", "self.get_header_by_height($10, $2)?", ["$8 ~ Some(_)"]⟩,
+  ⟨["$12"], "output_mmr_size", "$11.output_mmr_size", ["$8 ~ Some(_)"]⟩
+]
+theorem utxo_verify_coinbase_maturity_pinned : utxo_verify_coinbase_maturity.parseError = none ∧ utxo_verify_coinbase_maturity.steps = pin_utxo_verify_coinbase_maturity ∧ utxo_verify_coinbase_maturity.lets = pin_lets_utxo_verify_coinbase_maturity := ⟨rfl, rfl, rfl⟩
 
 /-- reviewed shape of `Extension::apply_block (chain/src/txhashset/txhashset.rs)` -/
 def pin_ext_apply_block : List Step := [
@@ -335,7 +458,11 @@ def pin_ext_apply_block : List Step := [
   ⟨.check, "apply_to_bitmap_accumulator", "self.apply_to_bitmap_accumulator(&$3)", "", []⟩,
   ⟨.okFinal, "", "()", "", []⟩
 ]
-theorem ext_apply_block_pinned : ext_apply_block.parseError = none ∧ ext_apply_block.steps = pin_ext_apply_block := ⟨rfl, rfl⟩
+/-- reviewed `let`s / assignments that feed a guard of `Extension::apply_block (chain/src/txhashset/txhashset.rs)` -/
+def pin_lets_ext_apply_block : List LetRec := [
+  ⟨["$6"], "validate_inputs", "self.utxo_view($1).validate_inputs(&$0.inputs(), $2)?", []⟩
+]
+theorem ext_apply_block_pinned : ext_apply_block.parseError = none ∧ ext_apply_block.steps = pin_ext_apply_block ∧ ext_apply_block.lets = pin_lets_ext_apply_block := ⟨rfl, rfl, rfl⟩
 
 /-- reviewed shape of `Extension::apply_input (chain/src/txhashset/txhashset.rs)` -/
 def pin_ext_apply_input : List Step := [
@@ -344,7 +471,10 @@ def pin_ext_apply_input : List Step := [
   ⟨.fail, "AlreadySpent", "Error::AlreadySpent($0)", "", ["self.output_pmmr.prune(($1.pos - 1)) ~ Ok(_)"]⟩,
   ⟨.fail, "TxHashSetErr", "Error::TxHashSetErr($4)", "", ["self.output_pmmr.prune(($1.pos - 1)) ~ Err(_)"]⟩
 ]
-theorem ext_apply_input_pinned : ext_apply_input.parseError = none ∧ ext_apply_input.steps = pin_ext_apply_input := ⟨rfl, rfl⟩
+/-- reviewed `let`s / assignments that feed a guard of `Extension::apply_input (chain/src/txhashset/txhashset.rs)` -/
+def pin_lets_ext_apply_input : List LetRec := [
+]
+theorem ext_apply_input_pinned : ext_apply_input.parseError = none ∧ ext_apply_input.steps = pin_ext_apply_input ∧ ext_apply_input.lets = pin_lets_ext_apply_input := ⟨rfl, rfl, rfl⟩
 
 /-- reviewed shape of `Extension::apply_output (chain/src/txhashset/txhashset.rs)` -/
 def pin_ext_apply_output : List Step := [
@@ -355,14 +485,23 @@ def pin_ext_apply_output : List Step := [
   ⟨.fail, "Other", "Error::Other(\"…\".to_string())", "", ["($5 != $6)"]⟩,
   ⟨.okFinal, "", "(1 + $5)", "", []⟩
 ]
-theorem ext_apply_output_pinned : ext_apply_output.parseError = none ∧ ext_apply_output.steps = pin_ext_apply_output := ⟨rfl, rfl⟩
+/-- reviewed `let`s / assignments that feed a guard of `Extension::apply_output (chain/src/txhashset/txhashset.rs)` -/
+def pin_lets_ext_apply_output : List LetRec := [
+  ⟨["$2"], "commitment", "$0.commitment()", []⟩,
+  ⟨["$5"], "push", "self.output_pmmr.push(&$0.identifier()).map_err(&Error::TxHashSetErr)?", []⟩,
+  ⟨["$6"], "push", "self.rproof_pmmr.push(&$0.proof()).map_err(&Error::TxHashSetErr)?", []⟩
+]
+theorem ext_apply_output_pinned : ext_apply_output.parseError = none ∧ ext_apply_output.steps = pin_ext_apply_output ∧ ext_apply_output.lets = pin_lets_ext_apply_output := ⟨rfl, rfl, rfl⟩
 
 /-- reviewed shape of `Extension::apply_kernel (chain/src/txhashset/txhashset.rs)` -/
 def pin_ext_apply_kernel : List Step := [
   ⟨.check, "push", "self.kernel_pmmr.push($0).map_err(&Error::TxHashSetErr)", "TxHashSetErr", []⟩,
   ⟨.okFinal, "", "(1 + $1)", "", []⟩
 ]
-theorem ext_apply_kernel_pinned : ext_apply_kernel.parseError = none ∧ ext_apply_kernel.steps = pin_ext_apply_kernel := ⟨rfl, rfl⟩
+/-- reviewed `let`s / assignments that feed a guard of `Extension::apply_kernel (chain/src/txhashset/txhashset.rs)` -/
+def pin_lets_ext_apply_kernel : List LetRec := [
+]
+theorem ext_apply_kernel_pinned : ext_apply_kernel.parseError = none ∧ ext_apply_kernel.steps = pin_ext_apply_kernel ∧ ext_apply_kernel.lets = pin_lets_ext_apply_kernel := ⟨rfl, rfl, rfl⟩
 
 /-- reviewed shape of `Extension::rewind (chain/src/txhashset/txhashset.rs)` -/
 def pin_ext_rewind : List Step := [
@@ -376,7 +515,13 @@ def pin_ext_rewind : List Step := [
   ⟨.check, "apply_to_bitmap_accumulator", "self.apply_to_bitmap_accumulator(&$3)", "", ["!(($2.height <= $0.height))"]⟩,
   ⟨.okFinal, "", "()", "", []⟩
 ]
-theorem ext_rewind_pinned : ext_rewind.parseError = none ∧ ext_rewind.steps = pin_ext_rewind := ⟨rfl, rfl⟩
+/-- reviewed `let`s / assignments that feed a guard of `Extension::rewind (chain/src/txhashset/txhashset.rs)` -/
+def pin_lets_ext_rewind : List LetRec := [
+  ⟨["$2"], "get_block_header", "$1.get_block_header(&self.head.hash())?", []⟩,
+  ⟨["$4"], "head_header", "$2", ["!(($2.height <= $0.height))"]⟩,
+  ⟨["$4"], "get_previous_header", "= $1.get_previous_header(&$4)?", ["!(($2.height <= $0.height))", "while ($0.height < $4.height)"]⟩
+]
+theorem ext_rewind_pinned : ext_rewind.parseError = none ∧ ext_rewind.steps = pin_ext_rewind ∧ ext_rewind.lets = pin_lets_ext_rewind := ⟨rfl, rfl, rfl⟩
 
 /-- reviewed shape of `Extension::rewind_single_block (chain/src/txhashset/txhashset.rs)` -/
 def pin_ext_rewind_single_block : List Step := [
@@ -392,7 +537,12 @@ def pin_ext_rewind_single_block : List Step := [
   ⟨.check, "save_output_pos_height", "$1.save_output_pos_height(&$18.commitment(), $17)", "", ["$4 ~ Ok(_)", "for $16", "self.output_pmmr.get_data(($17.pos - 1)) ~ Some(_)"]⟩,
   ⟨.okFinal, "", "$11", "", []⟩
 ]
-theorem ext_rewind_single_block_pinned : ext_rewind_single_block.parseError = none ∧ ext_rewind_single_block.steps = pin_ext_rewind_single_block := ⟨rfl, rfl⟩
+/-- reviewed `let`s / assignments that feed a guard of `Extension::rewind_single_block (chain/src/txhashset/txhashset.rs)` -/
+def pin_lets_ext_rewind_single_block : List LetRec := [
+  ⟨["$2"], "header", "&$0.header", []⟩,
+  ⟨["$4"], "get_spent_index", "$1.get_spent_index(&$2.hash())", []⟩
+]
+theorem ext_rewind_single_block_pinned : ext_rewind_single_block.parseError = none ∧ ext_rewind_single_block.steps = pin_ext_rewind_single_block ∧ ext_rewind_single_block.lets = pin_lets_ext_rewind_single_block := ⟨rfl, rfl, rfl⟩
 
 /-- reviewed shape of `Extension::validate_roots (chain/src/txhashset/txhashset.rs)` -/
 def pin_ext_validate_roots : List Step := [
@@ -400,7 +550,10 @@ def pin_ext_validate_roots : List Step := [
   ⟨.check, "roots", "self.roots()", "", []⟩,
   ⟨.tail, "validate", "self.roots()?.validate($0)", "", []⟩
 ]
-theorem ext_validate_roots_pinned : ext_validate_roots.parseError = none ∧ ext_validate_roots.steps = pin_ext_validate_roots := ⟨rfl, rfl⟩
+/-- reviewed `let`s / assignments that feed a guard of `Extension::validate_roots (chain/src/txhashset/txhashset.rs)` -/
+def pin_lets_ext_validate_roots : List LetRec := [
+]
+theorem ext_validate_roots_pinned : ext_validate_roots.parseError = none ∧ ext_validate_roots.steps = pin_ext_validate_roots ∧ ext_validate_roots.lets = pin_lets_ext_validate_roots := ⟨rfl, rfl, rfl⟩
 
 /-- reviewed shape of `Extension::validate_sizes (chain/src/txhashset/txhashset.rs)` -/
 def pin_ext_validate_sizes : List Step := [
@@ -408,7 +561,10 @@ def pin_ext_validate_sizes : List Step := [
   ⟨.fail, "InvalidMMRSize", "Error::InvalidMMRSize", "", ["(($0.output_mmr_size, $0.output_mmr_size, $0.kernel_mmr_size) != self.sizes())"]⟩,
   ⟨.okFinal, "", "()", "", ["!((($0.output_mmr_size, $0.output_mmr_size, $0.kernel_mmr_size) != self.sizes()))"]⟩
 ]
-theorem ext_validate_sizes_pinned : ext_validate_sizes.parseError = none ∧ ext_validate_sizes.steps = pin_ext_validate_sizes := ⟨rfl, rfl⟩
+/-- reviewed `let`s / assignments that feed a guard of `Extension::validate_sizes (chain/src/txhashset/txhashset.rs)` -/
+def pin_lets_ext_validate_sizes : List LetRec := [
+]
+theorem ext_validate_sizes_pinned : ext_validate_sizes.parseError = none ∧ ext_validate_sizes.steps = pin_ext_validate_sizes ∧ ext_validate_sizes.lets = pin_lets_ext_validate_sizes := ⟨rfl, rfl, rfl⟩
 
 /-- reviewed shape of `Extension::validate_mmrs (chain/src/txhashset/txhashset.rs)` -/
 def pin_ext_validate_mmrs : List Step := [
@@ -417,7 +573,10 @@ def pin_ext_validate_mmrs : List Step := [
   ⟨.fail, "InvalidTxHashSet", "Error::InvalidTxHashSet($3)", "", ["self.kernel_pmmr.validate() ~ Err(_)"]⟩,
   ⟨.okFinal, "", "()", "", []⟩
 ]
-theorem ext_validate_mmrs_pinned : ext_validate_mmrs.parseError = none ∧ ext_validate_mmrs.steps = pin_ext_validate_mmrs := ⟨rfl, rfl⟩
+/-- reviewed `let`s / assignments that feed a guard of `Extension::validate_mmrs (chain/src/txhashset/txhashset.rs)` -/
+def pin_lets_ext_validate_mmrs : List LetRec := [
+]
+theorem ext_validate_mmrs_pinned : ext_validate_mmrs.parseError = none ∧ ext_validate_mmrs.steps = pin_ext_validate_mmrs ∧ ext_validate_mmrs.lets = pin_lets_ext_validate_mmrs := ⟨rfl, rfl, rfl⟩
 
 /-- reviewed shape of `Extension::validate (chain/src/txhashset/txhashset.rs)` -/
 def pin_ext_validate : List Step := [
@@ -432,28 +591,40 @@ def pin_ext_validate : List Step := [
   ⟨.fail, "Stopped", "Error::Stopped.into()", "", ["!($1)", "$6 ~ Some(_)", "$11.is_stopped()"]⟩,
   ⟨.okFinal, "", "($8, $9)", "", []⟩
 ]
-theorem ext_validate_pinned : ext_validate.parseError = none ∧ ext_validate.steps = pin_ext_validate := ⟨rfl, rfl⟩
+/-- reviewed `let`s / assignments that feed a guard of `Extension::validate (chain/src/txhashset/txhashset.rs)` -/
+def pin_lets_ext_validate : List LetRec := [
+]
+theorem ext_validate_pinned : ext_validate.parseError = none ∧ ext_validate.steps = pin_ext_validate ∧ ext_validate.lets = pin_lets_ext_validate := ⟨rfl, rfl, rfl⟩
 
 /-- reviewed shape of `Extension::validate_kernel_sums (chain/src/txhashset/txhashset.rs)` -/
 def pin_ext_validate_kernel_sums : List Step := [
   ⟨.check, "verify_kernel_sums", "self.verify_kernel_sums($1.total_overage(($0.kernel_mmr_size > 0)), $1.total_kernel_offset())", "", []⟩,
   ⟨.okFinal, "", "($3, $4)", "", []⟩
 ]
-theorem ext_validate_kernel_sums_pinned : ext_validate_kernel_sums.parseError = none ∧ ext_validate_kernel_sums.steps = pin_ext_validate_kernel_sums := ⟨rfl, rfl⟩
+/-- reviewed `let`s / assignments that feed a guard of `Extension::validate_kernel_sums (chain/src/txhashset/txhashset.rs)` -/
+def pin_lets_ext_validate_kernel_sums : List LetRec := [
+]
+theorem ext_validate_kernel_sums_pinned : ext_validate_kernel_sums.parseError = none ∧ ext_validate_kernel_sums.steps = pin_ext_validate_kernel_sums ∧ ext_validate_kernel_sums.lets = pin_lets_ext_validate_kernel_sums := ⟨rfl, rfl, rfl⟩
 
 /-- reviewed shape of `HeaderExtension::apply_header (chain/src/txhashset/txhashset.rs)` -/
 def pin_hext_apply_header : List Step := [
   ⟨.check, "push", "self.pmmr.push($0).map_err(&Error::TxHashSetErr)", "TxHashSetErr", []⟩,
   ⟨.okFinal, "", "()", "", []⟩
 ]
-theorem hext_apply_header_pinned : hext_apply_header.parseError = none ∧ hext_apply_header.steps = pin_hext_apply_header := ⟨rfl, rfl⟩
+/-- reviewed `let`s / assignments that feed a guard of `HeaderExtension::apply_header (chain/src/txhashset/txhashset.rs)` -/
+def pin_lets_hext_apply_header : List LetRec := [
+]
+theorem hext_apply_header_pinned : hext_apply_header.parseError = none ∧ hext_apply_header.steps = pin_hext_apply_header ∧ hext_apply_header.lets = pin_lets_hext_apply_header := ⟨rfl, rfl, rfl⟩
 
 /-- reviewed shape of `HeaderExtension::rewind (chain/src/txhashset/txhashset.rs)` -/
 def pin_hext_rewind : List Step := [
   ⟨.check, "rewind", "self.pmmr.rewind($1, &Bitmap::new()).map_err(&Error::TxHashSetErr)", "TxHashSetErr", []⟩,
   ⟨.okFinal, "", "()", "", []⟩
 ]
-theorem hext_rewind_pinned : hext_rewind.parseError = none ∧ hext_rewind.steps = pin_hext_rewind := ⟨rfl, rfl⟩
+/-- reviewed `let`s / assignments that feed a guard of `HeaderExtension::rewind (chain/src/txhashset/txhashset.rs)` -/
+def pin_lets_hext_rewind : List LetRec := [
+]
+theorem hext_rewind_pinned : hext_rewind.parseError = none ∧ hext_rewind.steps = pin_hext_rewind ∧ hext_rewind.lets = pin_lets_hext_rewind := ⟨rfl, rfl, rfl⟩
 
 /-- reviewed shape of `HeaderExtension::validate_root (chain/src/txhashset/txhashset.rs)` -/
 def pin_hext_validate_root : List Step := [
@@ -462,6 +633,9 @@ def pin_hext_validate_root : List Step := [
   ⟨.fail, "InvalidRoot", "Error::InvalidRoot", "", ["(self.root()? != $0.prev_root)"]⟩,
   ⟨.okFinal, "", "()", "", ["!((self.root()? != $0.prev_root))"]⟩
 ]
-theorem hext_validate_root_pinned : hext_validate_root.parseError = none ∧ hext_validate_root.steps = pin_hext_validate_root := ⟨rfl, rfl⟩
+/-- reviewed `let`s / assignments that feed a guard of `HeaderExtension::validate_root (chain/src/txhashset/txhashset.rs)` -/
+def pin_lets_hext_validate_root : List LetRec := [
+]
+theorem hext_validate_root_pinned : hext_validate_root.parseError = none ∧ hext_validate_root.steps = pin_hext_validate_root ∧ hext_validate_root.lets = pin_lets_hext_validate_root := ⟨rfl, rfl, rfl⟩
 
 end GV.Props.XlateShapeChainPins
